@@ -65,7 +65,7 @@ def walk_probe(run, tier, nprng, torch_too=False, prop="C02"):
             outs = [("numpy", got)]
             if torch_too:
                 tc = PyTorchSTFTFrameComputer.from_stft_frame_computer(c, filter_type=torch.cdouble, window_type=torch.double)
-                outs.append(("torch", tc(torch.tensor(x)).detach().numpy()))
+                outs.append(("torch", tc(stubs.torch_layout(x)).detach().numpy()))
             exp = V.features(x, stubs.Ramp().get_impulse_response(D), D, specs, False, power, log, False, walk)
             # machinery self-check: the spec's half-spectrum pairs give the same number as its full-spectrum bins
             Xh = np.fft.rfft(x * stubs.Ramp().get_impulse_response(D), D)
@@ -218,7 +218,7 @@ def value_level(run, tier, nprng, walk, torch_too=False, prop="C02"):
         outs = [("numpy", c.compute_full(x))]
         if torch_too and (N >= L or N < L // 2 + 1):  # C14 is stated for N >= frame_length and for N < frame_length//2+1
             tc = PyTorchSTFTFrameComputer.from_stft_frame_computer(c, filter_type=torch.cdouble, window_type=torch.double)
-            outs.append(("torch", tc(torch.tensor(x)).detach().numpy()))
+            outs.append(("torch", tc(stubs.torch_layout(x)).detach().numpy()))
         if prop == "C14":
             if len(outs) < 2:
                 continue
